@@ -17,6 +17,7 @@ import (
 // and a handler runs exactly once.
 func apiProtected(w *lib.Writer, tier string, seed uint64) {
 	loadReader(w)
+	handlerAtFullStack(w)
 	type callee struct {
 		name string
 		mk   func(L *lua.LState) lua.LValue
@@ -190,5 +191,41 @@ RESULT = table.concat(r, " | ")`
 	w.Meta.GoOnlyChecked++
 	if what != "" {
 		w.GoFail(id, "errors of load's reader function: "+what)
+	}
+}
+
+// handlerAtFullStack: xpcall's handler must run (once) also when the error is a call-stack overflow.
+// Open known finding C05-6: gopher-lua calls the handler on the still-full frame stack, so it never
+// runs; the case is tagged with the finding and fails only in that way.
+func handlerAtFullStack(w *lib.Writer) {
+	src := `local runs = 0; local function rec() return 1 + rec() end
+local ok, e = xpcall(rec, function(m) runs = runs + 1; return "H:" .. tostring(m) end)
+RESULT = tostring(ok) .. " " .. runs .. " " .. tostring(type(e) == "string" and e:sub(1, 2) == "H:")`
+	what := ""
+	func() {
+		defer func() {
+			if r := recover(); r != nil {
+				what = fmt.Sprintf("Go panic escaped: %v", r)
+			}
+		}()
+		L := lua.NewState()
+		defer L.Close()
+		if err := L.DoString(src); err != nil {
+			what = "the overflow left xpcall: " + err.Error()
+			return
+		}
+		if got := L.GetGlobal("RESULT").String(); got != "false 1 true" {
+			what = fmt.Sprintf("ok/handler runs/handler result delivered = %q, expected \"false 1 true\"", got)
+		}
+	}()
+	kf := []string{}
+	if what == `ok/handler runs/handler result delivered = "false 0 false", expected "false 1 true"` {
+		kf = []string{"C05-6"} // exactly the listed behaviour: contained, but the handler never ran
+	}
+	id := w.Add(lib.Case{Input: map[string]any{"api": "xpcall-handler-at-full-call-stack", "src": src}, Observed: map[string]any{"failed": what != "", "what": what},
+		Class: "api-handler-full-stack", Nontrivial: true, KF: kf, Coq: "CProg [] (Outcome [] (OOk []))"})
+	w.Meta.GoOnlyChecked++
+	if what != "" {
+		w.GoFail(id, "xpcall handler when the call stack is full: "+what)
 	}
 }
